@@ -40,7 +40,9 @@ StoreAfter(k) ==
      IF c \notin ViewCells THEN c
      ELSE CASE k \in {"assign_array", "assign_rotview", "assign_padview", "assign_constview", "assign_other",
                       "assign_range", "assign_il", "elements_assign", "swap", "assign_moved_view",
-                      "assign_rvalue_rotview", "assign_innerT", "assign_rvalue_innerT", "swap_same_layout"} -> SrcBase + PosOf(c)
+                      "assign_rvalue_rotview", "assign_innerT", "assign_rvalue_innerT", "swap_same_layout",
+                      \* source and destination: views of one allocation with interleaved addresses and disjoint elements
+                      "assign_interleaved"} -> SrcBase + PosOf(c)
             \* fill takes the view's value_type: an element (D = 1) or a (D-1)-dimensional array
             [] k = "fill" -> FillBase + ((PosOf(c) - 1) % InnerN) + 1
             [] k = "std_fill_elements" -> FillBase
